@@ -20,6 +20,11 @@ func VerifC17Invalid() {
 	unseen[0], unseen[1] = 0xcc, 0x01
 	unseenMarked := false
 	accepted := []bool{true}
+	if verifParam("rich", 0) == 1 {
+		for range h.richState() {
+			accepted = append(accepted, true)
+		}
+	}
 	for s := 0; s < steps; s++ {
 		op := pick(fmt.Sprintf("op%d", s), ops)
 		switch op {
@@ -44,6 +49,13 @@ func VerifC17Invalid() {
 				err := h.repo.MarkHeaderInvalid(h.ctx, h.hash[sel])
 				verifAssert(err == nil, "marking-returns-error")
 				h.marked[sel] = true
+				// the marked header and everything built on it is dropped; a descendant is only
+				// known again if it is submitted again after an unmark
+				for j := range h.hdr {
+					if h.isAncestor(sel, j) {
+						accepted[j] = false
+					}
+				}
 				verifReach("marked-known")
 			}
 		case 2: // re-submit a marked header: must be refused as marked invalid
@@ -96,6 +108,9 @@ func VerifC17Invalid() {
 					got := errClass(h.repo.ProcessHeader(h.ctx, h.hdr[i]))
 					if h.parent[i] >= 0 && h.known(h.parent[i]) && !h.excluded(h.parent[i]) {
 						verifAssert(got == "ok", "unmarked-header-not-acceptable:got-"+got)
+					}
+					if got == "ok" {
+						accepted[i] = true
 					}
 					verifReach("unmarked")
 					break
